@@ -102,12 +102,18 @@ HARNESS_PKGS.update(C19=("conc",))
 ONCE_PROPS = ("INVARIANT UseSeesAll\nINVARIANT FlagImpliesComplete\nINVARIANT BodyOnce\nINVARIANT Mutex\nPROPERTY FlagMonotone\nPROPERTY Terminates\n")
 
 
-def mc_once(res, g, flag0, tour=None):
-    c = "SPECIFICATION Spec\nCONSTANT G = %d\nCONSTANT K = 3\nCONSTANT Flag0 = %d\n" % (g, flag0) + ONCE_PROPS + \
+def mc_once(res, g, flag0, tour=None, k=3):
+    c = "SPECIFICATION Spec\nCONSTANT G = %d\nCONSTANT K = %d\nCONSTANT Flag0 = %d\n" % (g, k, flag0) + ONCE_PROPS + \
         "VIEW View\nCHECK_DEADLOCK FALSE\n" + ("ACTION_CONSTRAINT Emit\n" if tour else "")
     r = tlc("MC_OnceInit", c, emit_to=tour, workers=2, timeout=1800)
-    res.add_tlc(r, "OnceInit G=%d K=3 Flag0=%d: all interleavings; UseSeesAll, FlagImpliesComplete, BodyOnce, Mutex, FlagMonotone, termination" % (g, flag0))
+    res.add_tlc(r, "OnceInit G=%d K=%d Flag0=%d: all interleavings; UseSeesAll, FlagImpliesComplete, BodyOnce, Mutex, FlagMonotone, termination" % (g, k, flag0))
     return r
+
+
+def retarget(src, dst, target):
+    with open(dst, "w") as fh:
+        for e in read_ndjson(src):
+            fh.write(json.dumps(dict(e, target=target)) + "\n")
 
 
 def first_use_runs(res, binary, seed, nproc, env=None, label=""):
@@ -154,16 +160,24 @@ def c19(res, tier, seed):
         mc_once(res, 4, 0)
     res.exhaustive = True
     replay_tour(res, b, "onceinit", tour, key=lambda e: ["gated", e["g"], e["flag0"], [s["at"] + str(s["obs"]) for s in e["steps"]][-3:]])
+    # the same protocol with a one-stage body is filedesc.File.lazyInit/lazyInitOnce (K = 2: lazyRawInit, then the store);
+    # every schedule runs on a File built again from a registered file's raw descriptor, never lazily initialised before
+    ftour = os.path.join(scratch(), "c19-file.tour")
+    mc_once(res, 2, 0, tour=ftour, k=2)
+    mc_once(res, 2, 1, tour=ftour, k=2)
+    retarget(ftour, ftour + ".file", "file")
+    replay_tour(res, b, "onceinit", ftour + ".file", key=lambda e: ["gated-file", e["g"], e["flag0"], [s["at"] + str(s["obs"]) for s in e["steps"]][-3:]])
     first_use_runs(res, b, seed, 6 if tier == "quick" else 60)
     # the race detector is a sensor of the conformance harness: a DATA RACE report during concurrent first use is a violation
     br = build_harness(("conc",), race=True)
     nrace = 2 if tier == "quick" else 12
     first_use_runs(res, br, seed + 7, nrace, env={"GORACE": "halt_on_error=1 exitcode=66"}, label="-race")
     res.notes.append("%d fresh -race processes of concurrent first use" % nrace)
-    res.rule = ("gated: TLC enumerates every interleaving of 2 goroutines through MessageInfo.init/initOnce (flag initially clear or set); every "
-                "transition is replayed on real goroutines parked at verifhook gates on a message type not used before in the process, comparing "
-                "the flag value / table completeness observed at every step; free: fresh processes in which 2-32 goroutines make concurrent first "
+    res.rule = ("gated: TLC enumerates every interleaving of 2 goroutines through MessageInfo.init/initOnce (K=3) and through "
+                "filedesc.File.lazyInit/lazyInitOnce (K=2), flag initially clear or set; every transition is replayed on real goroutines parked "
+                "at verifhook gates on a message type not used before in the process / on a File freshly built from a registered raw descriptor, "
+                "comparing the flag value / table completeness observed at every step and the descriptor digest each goroutine reads afterwards; free: fresh processes in which 2-32 goroutines make concurrent first "
                 "use of a seeded subset of ~1500 registered types, enums, extensions and files; every (item, digest) must equal the sequential "
                 "reference (FirstUseMemo); distinct = step-observation suffixes and (goroutines, subset) classes")
-    res.assumptions += ["gated replay covers impl.MessageInfo.init (generated and opaque paths); filedesc lazy init, legacy wrappers and the global registries are covered by the free-running digests only",
+    res.assumptions += ["gated replay covers impl.MessageInfo.init (generated and opaque paths) and filedesc.File.lazyInit; legacy wrappers and the global registries are covered by the free-running digests only",
                         "the Go memory model is not modelled; -race runs in the thorough tier"]
